@@ -213,6 +213,35 @@ theorem C07_fragment_boundaries_safe_partial (e : Expr) (hw : lexWFS e) (p : Boo
       ∧ SafeSeqS slt (annotS e p q) :=
   ⟨((annotS_eq e).1 p q hw).1, ((annotS_eq e).1 p q hw).2, ((safe_allS e).1 p q slt hw hpre).1⟩
 
+/-- **No remark opener or closer in the laid-out text of an expression, at every line length**: the text the layout engine
+produces from the fragments of an expression (`lexWF`: no simple string literals) contains neither `--` nor `(*` nor `*)` —
+provided no single token contains one (`htok`; by `C07_token_spelling_clean` that can only fail for an encoded string literal
+`"…"` whose body contains such a sequence).  Within a token by `htok`, where two tokens touch by `C07_adjacent_tokens_no_glue`,
+everywhere else there is white space.  (Seed C07-e1 — `-(-x)` printed `--x` — refutes the static premise
+`C07_fragment_boundaries_safe_partial`; this is the dynamic consequence.) -/
+theorem C07_no_remark_in_expression_partial (e : Expr) (hw : lexWF e) (p : Bool) (q : Option BinOp) (st : PState)
+    (h0 : st.pieces = []) (hs : st.spaceLast = false)
+    (htok : ∀ t ∈ toks Shared.clean e p q, hasPair remarkPairs (sp t) = false) :
+    hasPair remarkPairs (run st (exprFrags Shared.clean e p q)).text = false := by
+  obtain ⟨hf, ht⟩ := (annot_eq e).1 p q hw
+  obtain ⟨hsafe, _⟩ := (safe_all e).1 p q none hw (Or.inl rfl)
+  have ht0 : st.text = [] := by simp [PState.text, h0]
+  have hcl : ∀ a ∈ annot e p q, ∀ x ∈ a.body, hasPair remarkPairs (sp x.1) = false := by
+    intro a ha x hx
+    apply htok
+    rw [← ht]
+    exact List.mem_flatMap.mpr ⟨a, ha, List.mem_map.mpr ⟨x, hx, rfl⟩⟩
+  obtain ⟨lt', _, hC⟩ := KC_run (annot e p q) st [] none none (K_init st h0 hs) ⟨by rw [ht0]; rfl, Or.inl ht0⟩
+    (fun t0 h => by cases h) (Or.inl rfl) hsafe hcl
+  rw [hf] at hC
+  exact hC.1
+
+/-- every token the printers emit, other than a string literal, is spelled without `--`, `(*`, `*)`: identifiers, INTEGER and
+REAL spellings (the `-` of an exponent is followed by a digit), binary literals, keywords, all 21 operators, punctuation -/
+theorem C07_token_spelling_clean (t : Tok) (hw : TokWF t) (hs : ∀ b, t ≠ .str b) (he : ∀ b, t ≠ .estr b) :
+    hasPair remarkPairs (sp t) = false :=
+  tok_clean t hw hs he
+
 /-- grammar token of a punctuation/operator token of the model -/
 def symTokName : Tok → Option String
   | .lp => some "TOK_LEFT_PAREN" | .rp => some "TOK_RIGHT_PAREN" | .lb => some "TOK_LEFT_BRACKET" | .rb => some "TOK_RIGHT_BRACKET"
